@@ -9,7 +9,7 @@ pub fn insert_op2(_g: &mut G, id: Id, k: KindTag, script: Script) -> Op {
         KindTag::Stream => Op::InsertStream { id, script },
         KindTag::Composite => {
             let n = _g.rng.range(1, 4);
-            let children = (0..n).map(|_| match _g.rng.below(5) { 0 => ChildSpec::Sock, 1 => ChildSpec::Timer(Deadline::In(_g.rng.range(0, 30) * crate::gen::MS)), _ => ChildSpec::Ping }).collect();
+            let children = (0..n).map(|_| match _g.rng.below(6) { 0 => ChildSpec::Sock, 1 => ChildSpec::Timer(Deadline::In(_g.rng.range(0, 30) * crate::gen::MS)), 2 | 3 => if _g.rng.chance(1, 2) { ChildSpec::ParkedTimer } else { ChildSpec::MaybeTimer }, _ => ChildSpec::Ping }).collect();
             Op::InsertComposite { id, children, script }
         }
         KindTag::Transient => {
@@ -74,6 +74,7 @@ pub fn cause_op2(g: &mut G, id: Id, k: KindTag) -> Option<Op> {
         }),
         KindTag::Composite => Some(match g.rng.below(10) {
             0 | 1 => Op::DropChildPing(id, g.rng.below(4) as u32),
+            4 | 5 => Op::ArmChildTimer(id, if g.rng.chance(2, 3) { u32::MAX } else { g.rng.below(4) as u32 }, g.rng.range(0, 20) * crate::gen::MS),
             2 | 3 => Op::PeerWriteChild(id, g.rng.below(4) as u32, 3),
             _ => Op::PingChild(id, g.rng.below(4) as u32),
         }),
